@@ -1,8 +1,10 @@
 package main
 
 import (
+	"go/ast"
 	"go/token"
 	"go/types"
+	"strings"
 
 	"golang.org/x/tools/go/ssa"
 )
@@ -334,4 +336,95 @@ func mapWithElem(pkgPath, name string) func(types.Type) bool {
 		m, ok := t.Underlying().(*types.Map)
 		return ok && typeIs(m.Elem(), pkgPath, name)
 	}
+}
+
+// switchConstCoverage inspects every `switch x {…}` in decl whose tag has the named type and reports,
+// per switch, the constants of that type that have no case, and whether a default exists.
+type switchCov struct {
+	pos        token.Pos
+	missing    []string
+	hasDefault bool
+	cases      map[string]bool
+}
+
+func switchConstCoverage(c *Ctx, rel string, decl ast.Node, pkgPath, typeName string) []switchCov {
+	p := c.pkg(rel)
+	// all constants of the type
+	tp := c.Pkgs[pkgPath]
+	var all []string
+	if tp != nil {
+		sc := tp.Types.Scope()
+		for _, n := range sc.Names() {
+			if cst, ok := sc.Lookup(n).(*types.Const); ok && typeIs(cst.Type(), pkgPath, typeName) {
+				all = append(all, n)
+			}
+		}
+	}
+	var out []switchCov
+	ast.Inspect(decl, func(n ast.Node) bool {
+		sw, ok := n.(*ast.SwitchStmt)
+		if !ok || sw.Tag == nil {
+			return true
+		}
+		t := p.TypesInfo.TypeOf(sw.Tag)
+		if t == nil || !typeIs(t, pkgPath, typeName) {
+			return true
+		}
+		cov := switchCov{pos: sw.Pos(), cases: map[string]bool{}}
+		for _, st := range sw.Body.List {
+			cc := st.(*ast.CaseClause)
+			if cc.List == nil {
+				cov.hasDefault = true
+			}
+			for _, e := range cc.List {
+				var id *ast.Ident
+				switch x := e.(type) {
+				case *ast.Ident:
+					id = x
+				case *ast.SelectorExpr:
+					id = x.Sel
+				}
+				if id != nil {
+					if obj, ok := p.TypesInfo.Uses[id].(*types.Const); ok {
+						cov.cases[obj.Name()] = true
+					}
+				}
+			}
+		}
+		for _, n := range all {
+			if !cov.cases[n] {
+				cov.missing = append(cov.missing, n)
+			}
+		}
+		out = append(out, cov)
+		return true
+	})
+	return out
+}
+
+// reachesCallTo: does fn (transitively through static callees inside the module, depth-bounded)
+// contain an instruction satisfying pred?
+func reachesInstr(fn *ssa.Function, pred func(ssa.Instruction) bool, depth int, seen map[*ssa.Function]bool) bool {
+	if fn == nil || seen[fn] || depth > 6 || len(fn.Blocks) == 0 {
+		return false
+	}
+	seen[fn] = true
+	found := false
+	eachInstr(fn, func(_ *ssa.BasicBlock, _ int, ins ssa.Instruction) {
+		if found {
+			return
+		}
+		if pred(ins) {
+			found = true
+			return
+		}
+		if call, ok := ins.(ssa.CallInstruction); ok {
+			if sf := staticFn(call); sf != nil && sf.Pkg != nil && strings.HasPrefix(sf.Pkg.Pkg.Path(), modPath) {
+				if reachesInstr(sf, pred, depth+1, seen) {
+					found = true
+				}
+			}
+		}
+	})
+	return found
 }
